@@ -39,6 +39,7 @@ const (
 	tBytes ty = "bytes"
 	tFn    ty = "fn"
 	tMap   ty = "map" // map[string]int64
+	tErr   ty = "err" // an error value, as the Bool "is not nil"
 	tUnk   ty = "?"
 )
 
@@ -58,6 +59,8 @@ func leanTy(t ty) string {
 		return "Int → Int → Bool"
 	case tMap:
 		return "List (GoSem.Bytes × Int)"
+	case tErr:
+		return "Bool"
 	}
 	if strings.HasPrefix(string(t), "struct:") {
 		return strings.TrimPrefix(string(t), "struct:")
@@ -359,6 +362,17 @@ func (t *tr) call(x *ast.CallExpr) ex {
 }
 
 func (t *tr) binary(x *ast.BinaryExpr) ex {
+	if id, ok := x.Y.(*ast.Ident); ok && id.Name == "nil" {
+		if a := t.expr(x.X); a.t == tErr && !a.mon {
+			switch x.Op {
+			case token.NEQ:
+				return ex{s: a.s, t: tBool}
+			case token.EQL:
+				return ex{s: "(!" + a.s + ")", t: tBool}
+			}
+		}
+		t.bad("comparison with nil")
+	}
 	a, b := t.expr(x.X), t.expr(x.Y)
 	// untyped constants take the type of the other operand
 	if a.lit && b.lit {
@@ -589,7 +603,14 @@ func (t *tr) stmts(list []ast.Stmt, k string, c *sctx) string {
 					return "let " + v.Name + " := (GoSem.mapGet " + m.s + " " + k.s + ").getD 0;\n  let " + okv.Name + " := (GoSem.mapGet " + m.s + " " + k.s + ").isSome;\n  " + rest()
 				}
 			}
-			t.bad("two-value assignment other than v, ok := m[k]")
+			if call, isCall := s.Rhs[0].(*ast.CallExpr); isCall && ok1 && ok2 && exprName(call.Fun) == "strconv.Atoi" && len(call.Args) == 1 {
+				a := t.expr(call.Args[0])
+				if a.t == tBytes && !a.mon {
+					t.vars[v.Name], t.vars[okv.Name] = tInt, tErr
+					return "let " + v.Name + " := (GoSem.atoi " + a.s + ").getD 0;\n  let " + okv.Name + " := (GoSem.atoi " + a.s + ").isNone;\n  " + rest()
+				}
+			}
+			t.bad("two-value assignment other than v, ok := m[k] / v, err := strconv.Atoi(s)")
 		}
 		if len(s.Lhs) != 1 || len(s.Rhs) != 1 {
 			t.bad("multiple assignment")
@@ -951,6 +972,7 @@ var transModules = []struct {
 	{"TransSpec", func(p *Pkgs) *pkg { return p.Spec }, []string{"isDNSNameChar"}},
 	{"TransStateRes", func(p *Pkgs) *pkg { return p.Root }, []string{"sortStateResV2ConflictedPowerLevelHeap", "sortStateResV2ConflictedOtherHeap", "conflictedEventSorter.Less@pair"}},
 	{"TransKeys", func(p *Pkgs) *pkg { return p.Root }, []string{"PublicKeyLookupResult.WasValidAt"}},
+	{"TransTokens", func(p *Pkgs) *pkg { return p.Tokens }, []string{"verifyExpiry"}},
 	{"TransLevels", func(p *Pkgs) *pkg { return p.Root }, []string{"PowerLevelContent.UserLevel", "PowerLevelContent.EventLevel", "PowerLevelContent.NotificationLevel"}},
 }
 
@@ -982,6 +1004,7 @@ var transProps = map[string][]string{
 	"TransStateRes": {"C10", "C11"},
 	"TransKeys":     {"C06", "C12", "C13"},
 	"TransLevels":   {"C07", "C08"},
+	"TransTokens":   {"C20"},
 }
 
 func translatedFor(prop, recv, name string) bool {
